@@ -29,6 +29,7 @@ from __future__ import division
 import copy
 import fnmatch
 import re
+import sys
 
 from whoosh import matching
 from whoosh.analysis import Token
@@ -299,7 +300,13 @@ class PatternQuery(MultiTerm):
     def _btexts(self, ixreader):
         field = ixreader.schema[self.fieldname]
 
-        exp = re.compile(self._get_pattern())
+        try:
+            exp = re.compile(self._get_pattern())
+        except re.error:
+            # e.g. r"alp\Z" after the field's analyzer lowercased it: an
+            # error in the query, not in the program
+            e = sys.exc_info()[1]
+            raise qcore.QueryError("Invalid pattern %r: %s" % (self.text, e))
         prefix = self._find_prefix(self.text)
         if prefix:
             candidates = ixreader.expand_prefix(self.fieldname, prefix)
